@@ -589,10 +589,12 @@ class Check(common.Check):
             return {'k': 'bndl', 'send': self.g_send(rng), 'off': self.g_off(rng), 'args': self.g_bundle(rng)}
         if r < 0.84:
             return {'k': 'dec', 'hex': self.g_dgram(rng)}
-        if r < 0.92:
+        if r < 0.90:
             limit = rng.choice([8192, 65504, 65468, 64, 100, 256, 1000])
             return {'k': 'clump', 'size': limit, 'els': self.g_elems_near(rng, limit)}
-        if r < 0.96:
+        if r < 0.95:
+            return self.g_reuse(rng)
+        if r < 0.975:
             t = rng.choice([None, float(0.25).hex(), float(0).hex()])
             self.SUBT = rng.choice([None, 0, jf(0.5)]) if t is None else rng.choice([jf(1.5), 3])
             return {'k': 'sendc', 'time': t,
@@ -601,6 +603,27 @@ class Check(common.Check):
         self.SUBT = rng.choice([None, 0, jf(0.5)]) if t is None else rng.choice([jf(1.5), 3])
         return {'k': 'sync', 'lat': t,
                 'els': self.g_elems_near(rng, rng.choice([65468, 65468, 65504, 8192]))}
+
+    def g_reuse(self, rng):
+        """call histories: the SAME argument objects given to a send path 2-4 times"""
+        m = rng.choice(['sync', 'sync', 'sendc', 'bundle', 'msg'])
+        n = rng.randrange(2, 5)
+        if m == 'msg':
+            self.SUBT = None
+            args = [js('/m'), rng.randrange(9), [js('/c'), rng.randrange(5)], [None, [js('/d'), js('x')], [js('/e')]],
+                    js('s' * rng.randrange(6))][:rng.randrange(2, 6)]
+            return {'k': 'reuse', 'method': 'msg', 'n': n, 'args': args, 'time': None}
+        t = None if m in ('bundle',) else rng.choice([None, None, float(0.5).hex()])
+        self.SUBT = rng.choice([None, 0, jf(0.5)]) if t is None else rng.choice([jf(4.5), 8])
+        if m == 'bundle':
+            self.SUBT = None
+        limit = rng.choice([200, 400, 8192, 8192, 65468, 65504]) if m != 'bundle' else rng.choice([100, 300, 2000])
+        els = self.g_elems_near(rng, limit)
+        if m == 'bundle' or rng.random() < 0.5:          # stay below every clumping threshold
+            els = els[:rng.randrange(1, 5)]
+            els = [[min(c, 3), e] for c, e in els]
+        return {'k': 'reuse', 'method': m, 'n': n, 'time': t, 'els': els,
+                'as': 'list' if rng.random() < 0.8 else 'tuple'}
 
     def g_dgram(self, rng):
         """well-formed and mildly damaged datagrams for the decoder tie (the hostile stream is C18's)"""
@@ -671,6 +694,15 @@ class Check(common.Check):
                 lines.append('dec ' + c['hex']); idx.append(1)
             elif k == 'clump':
                 lines.append(f'clump {c["size"]} ' + tok(self.els_list(c['els']))); idx.append(1)
+            elif k == 'reuse':
+                m = c['method']
+                if m == 'msg':
+                    lines.append('msg 0/1 0 ' + tok(c['args']))
+                elif m == 'bundle':
+                    lines.append('bndl 0/1 0 ' + tok([None] + self.els_list(c['els'])))
+                else:
+                    lines.append(f'{m} ' + tok(self.els_list(c['els'])))
+                idx.append(1)
             else:
                 lines.append(f'{k} ' + tok(self.els_list(c['els']))); idx.append(1)
         out, err = common.run_driver('Sc3Verif/C06/Driver.lean', lines)
@@ -687,6 +719,11 @@ class Check(common.Check):
                 res.append(d)
             elif k == 'dec':
                 res.append({'dec': o[0]})
+            elif k == 'reuse':
+                if c['method'] in ('msg', 'bundle'):       # every call sends these very bytes
+                    res.append({'r': o[0] if not o[0].startswith('ok ') else 'ok ' + ';'.join([o[0][3:]] * c['n'])})
+                else:                                       # every call sends this plan
+                    res.append({'r': o[0] if not o[0].startswith('ok ') else 'ok ' + ';'.join([o[0][3:]] * c['n'])})
             else:
                 res.append({'r': o[0]})
         if second:
@@ -698,7 +735,7 @@ class Check(common.Check):
         return res
 
     KEYS = {'msg': ('r', 'dec', 'size'), 'bndl': ('r', 'dec', 'size'), 'dec': ('dec',), 'clump': ('r',),
-            'sendc': ('r',), 'sync': ('r',)}
+            'sendc': ('r',), 'sync': ('r',), 'reuse': ('r',)}
 
     def compare(self, case, io, mo):
         diff = {}
@@ -706,6 +743,8 @@ class Check(common.Check):
             a, b = io.get(key), mo.get(key)
             if case['k'] in ('sendc', 'sync') and key == 'r':
                 a = ('ok ' + ','.join(str(x) for x in io.get('counts', []))) if a == 'ok' else a
+            if case['k'] == 'reuse' and case['method'] in ('msg', 'bundle') and key == 'r' and str(a).startswith('ok '):
+                a = 'ok ' + ';'.join(h for cl in io.get('calls', []) for h in (cl['hex'] or []))
             if mo.get('r') == 'err NOT-MODELLED' or b == 'err NOT-MODELLED':
                 continue        # a str / bytes / tuple where an element LIST is expected: Python indexes it
                                 # like a list; outside the modelled (and the property's) domain
@@ -725,6 +764,37 @@ class Check(common.Check):
             return self.oracle_clump(c, o)
         if k in ('sendc', 'sync'):
             return self.oracle_send(c, o)
+        if k == 'reuse':
+            return self.oracle_reuse(c, o)
+        return None
+
+    def oracle_reuse(self, c, o):
+        m = c['method']
+        if not o['r'].startswith('ok'):
+            return {'what': f'{m} raised {o["r"]} on well-formed arguments', 'signature': 'c06:send-raises'}
+        if m == 'msg':
+            want = [c['args'][0]['s']]
+        else:
+            want = [a for cnt, e in c['els'] for a in self.addr_seq(e) * cnt]
+        for i, cl in enumerate(o['calls']):
+            got = [a for per in cl['addrs'] for a in per]
+            if m == 'sync':
+                if any(per.count('/sync') != 1 or per[-1] != '/sync' for per in cl['addrs']):
+                    return {'what': f'call #{i + 1} of sync(elements=<the same list>): a datagram carries '
+                                    f'{[per.count("/sync") for per in cl["addrs"]]} /sync messages '
+                                    f'({[len(per) for per in cl["addrs"]]} elements), expected exactly one, last',
+                            'signature': 'c06:reuse-stale-elements', 'call': i}
+                got = [a for a in got if a != '/sync']
+            if got != want:
+                return {'what': f'call #{i + 1} of {m} with the same argument objects: datagrams carry {got[:12]}…, '
+                                f'the arguments say {want[:12]}…', 'signature': 'c06:reuse-wrong-elements', 'call': i}
+            if any(s > MAX_DGRAM for s in cl['sizes']) and m != 'msg' and \
+                    all(16 + 4 + s < (8192 if m == 'sendc' else MAX_DGRAM - 36) for s in o.get('elem_pred', [])) \
+                    and m in ('sendc', 'sync'):
+                return {'what': f'call #{i + 1}: datagram of {max(cl["sizes"])} bytes', 'signature': 'c06:dgram-over-limit'}
+        if o.get('mutated'):
+            return {'what': f'{m}: the caller\'s argument objects were modified by the call(s)',
+                    'signature': 'c06:reuse-arguments-mutated'}
         return None
 
     def oracle_packet(self, c, o):
@@ -825,6 +895,8 @@ class Check(common.Check):
             return o['r'].startswith('ok ') and o['r'].count(',') >= 1
         if c['k'] in ('sendc', 'sync'):
             return o['r'] == 'ok' and len(o.get('sizes', [])) >= 2
+        if c['k'] == 'reuse':
+            return o['r'].startswith('ok ')
         return o.get('dec', '').startswith('ok ')
 
     def histogram(self, cases, outs):
@@ -841,6 +913,8 @@ class Check(common.Check):
                 n = (len(r) - 3) // 2
                 inc('dgram_len:' + ('<32' if n < 32 else '<128' if n < 128 else '<1024' if n < 1024 else '>=1024'))
                 inc(f'dgram_mod4:{n % 4}')
+            if k == 'reuse':
+                inc('reuse:' + c['method'])
             if k == 'clump' and r.startswith('ok '):
                 inc('clumps:' + str(min(r.count(',') + 1, 5)) + ('+' if r.count(',') >= 4 else ''))
         return h
@@ -850,7 +924,7 @@ class Check(common.Check):
             head = c['args'][0]
             rest = common.shrink_list(c['args'][1:], lambda l: fails(dict(c, args=[head] + l)))
             return dict(c, args=[head] + rest)
-        if c['k'] in ('clump', 'sendc', 'sync') and len(c['els']) > 1:
+        if c['k'] in ('clump', 'sendc', 'sync') or (c['k'] == 'reuse' and c['method'] != 'msg') and len(c['els']) > 1:
             return dict(c, els=common.shrink_list(c['els'], lambda l: fails(dict(c, els=l))))
         return c
 
